@@ -15,6 +15,9 @@ RUNTIME_PATCHES = [
     ("src/runtime/time.go", "t.rand = cheaprand()", "t.rand = 0"),
     ("src/internal/runtime/maps/table.go", "it.entryOffset = rand()", "it.entryOffset = 0"),
     ("src/internal/runtime/maps/table.go", "it.dirOffset = rand()", "it.dirOffset = 0"),
+    # sync.Mutex switches to direct hand-off after 1 ms of REAL waiting: the only remaining source of run-to-run
+    # differences under fake time (1-2 traces in 3000)
+    ("src/internal/sync/mutex.go", "starvationThresholdNs = 1e6", "starvationThresholdNs = 1e18"),
 ]
 PROP_KINDS = {"C01": "c01-", "C02": "c02-", "C11": "c11-"}
 
